@@ -34,6 +34,11 @@ def run(cx):
     cx.run([lang, "render", "-in", p3, "-out", p3c])
     sources.append(("closure-scenarios", p3c))
 
+    # constant classes in every position and scaled shapes (Shapes.tla): original and reloaded compared with each other
+    for fam in ("consts", "scale"):
+        _, sp = langlib.gen_shapes(cx, fam)
+        sources.append(("shapes-" + fam, sp))
+
     programs = disagreements = unknown_total = 0
     nontriv = set()
     for label, path in sources:
@@ -56,7 +61,7 @@ def run(cx):
                 cx.notes.append("%s case %s: driver result %s" % (label, r["id"], k))
                 continue
             s = json.dumps(r["ast"])
-            if '"func"' in s:
+            if '"func"' in s or "func" in r["src"]:
                 nontriv.add(r["src"])
             if not res["marshal_twice_same"]:
                 cx.violation("%s: MarshalCode is not deterministic: src=%r" % (label, r["src"][:300]), {"leg": "bytes", "src": r["src"]})
@@ -87,7 +92,8 @@ def run(cx):
         "programs": programs, "disagreements_checked": disagreements, "evaluations": programs * 2,
         "distinct_nontrivial": len(nontriv), "skipped_unknown": unknown_total,
         "traces_validated_against_impl": programs,
-        "rule": "random and closure-heavy programs of C01/C02's generators plus TLC-enumerated closure scenarios; each compiled, "
+        "rule": "random and closure-heavy programs of C01/C02's generators plus TLC-enumerated closure scenarios, constant classes in every "
+                "constant position and scaled shapes (Shapes.tla: n siblings / constants / locals / globals / parameters / captured variables, nesting depth); each compiled, "
                 "marshalled, unmarshalled, original and reloaded run side by side, reloaded outcome checked by TLC against Lang.tla; "
                 "non-trivial = distinct source containing a function literal",
     })
